@@ -284,6 +284,12 @@ class DSession:
         """
         if self.shuttingdown:
             return
+        assert self.sched is not None
+        if node not in self.sched.nodes:
+            # The node became ready while the session was shutting down: it
+            # was told to shut down instead of being handed to the scheduler
+            # (the shutdown may have been revoked since, by a crash).
+            return
         self.config.hook.pytest_xdist_node_collection_finished(node=node, ids=ids)
         # tell session which items were effectively collected otherwise
         # the controller node will finish the session with EXIT_NOTESTSCOLLECTED
